@@ -14,7 +14,7 @@ from .sender_txn import tm_invariant, MOD
 from . import sender_txn      # noqa: F401
 
 TM_MODS = ["TransactionManager.state", "TransactionManager._txn_partitions", "TransactionManager._pending_txn_partitions",
-           "TransactionManager._txn_consumer_group", "TransactionManager._pending_txn_offsets", "TransactionManager._transaction_waiter",
+           "TransactionManager._txn_consumer_groups", "TransactionManager._pending_txn_offsets", "TransactionManager._transaction_waiter",
            "OffsetsDict.d", "Future.state", "Future.nres", "Future.exc"]
 
 classmodel("AddOffsetsHandler", {"_sender": Ref("Sender"), "_default_backoff": REAL, "_group_id": STR},
@@ -44,10 +44,10 @@ def _(c):
     c.ensures("done-only-when-added-or-failed-for-good",
               "implies(result is None, " + CODE + " == Errors.NoError or " + CODE + " == Errors.GroupAuthorizationFailedError)")
     c.ensures("added-exactly-on-no-error",
-              "implies(" + CODE + " == Errors.NoError, result is None and self._sender._txn_manager._txn_consumer_group == some_str(self._group_id))")
+              "implies(" + CODE + " == Errors.NoError, result is None and self._sender._txn_manager._txn_consumer_groups == set_with(old(self._sender._txn_manager._txn_consumer_groups), self._group_id))")
     c.replay_fn = lambda model, ob=None: {"script": _SCRIPT % "group_sweep"}
     c.ensures("untouched-when-to-be-retried",
-              "implies(result is not None, self._sender._txn_manager._txn_consumer_group == old(self._sender._txn_manager._txn_consumer_group))")
+              "implies(result is not None, self._sender._txn_manager._txn_consumer_groups == old(self._sender._txn_manager._txn_consumer_groups))")
 
 
 classmodel("TxnOffsetCommitHandlerObj", {"_sender": Ref("Sender"), "_default_backoff": REAL, "_group_id": STR,
